@@ -44,6 +44,30 @@ CLAIMED = {
    text="The trace spec carries the client's buffer as a state variable across calls: after each find_n(n) the whole buffer must equal 'first min(n,k) results of the allocating search, other slots unchanged (stale entries kept)', count = k, exhaustive iff n >= k, same error, accessors equal when exhaustive. Driven on every (zone, local time) of the scaled model with buffer lengths 0..5 and on seeded zones.",
    note="The allocating search's own result in the same event is the reference list (and is itself judged as in C05/C06).",
    tech="TLA+ trace spec with buffer state + TLC trace validation + scaled-model vectors"),
+ "C04": dict(cat="model_checking", ref="§C04",
+   text="DST periods are defined by orientation ([S(y),E(y)) for a northern rule, [S(y),E(y+1)) for a southern one) with S/E from declarative day notations; TLC checks the Mm.w.d reading against its arithmetic form on all 420 notations x 400 years, the period laws (start inclusive, end exclusive, no change at New Year) on a rule family, and emits lookups at S(y)-1, S(y), E(y)-1, E(y), New Year +-1 replayed through rule-only zones; seeded accepted rules (all notation pairs, near-coincident days, |time| up to 7 days, whole offset window, corpus-shaped rules) are probed at every start/end instant of three years +-1 s and validated by TLC.",
+   note="Rules that do not interleave are outside the statement's quantifier (either type admitted); rules with start = end in every year are unspecified. Known finding K2 (southern rules with coincident start/end) is reported as KNOWN-FINDING.",
+   tech="TLA+ spec (Rule) + TLC model checking + vectors replayed + TLC trace validation"),
+ "C11": dict(cat="model_checking", ref="§C11",
+   text="The acceptance criterion is the statement's literal year-by-year 'never flips' definition over a 400-year cycle; TLC derives from it, per ordered pair of day notations, the six integers that decide every d, checks the derivation against the literal definition on concrete rules, and emits constructor calls at every decision breakpoint k*86400 + {-1,0,1} (several time/offset splits incl. window edges) that are replayed; seeded rules, window-edge offsets/times and invalid rule days are validated by TLC with the specific error.",
+   note="Quick tier: ~1 400 selected pairs (structural families + seeded sample); thorough: more pairs. Not all 1 151^2 pairs in one run.",
+   tech="TLA+ spec (Rule: Consistent/RuleSummary) + TLC model checking (MC_Cons) + vectors replayed + TLC trace validation"),
+ "C18": dict(cat="model_checking", ref="§C18",
+   text="Render and an independently written Read (scanning from the right) are model-checked for Read(Render(x)) = x and the stated shape on a corner grid (81 k states: i32 year ends, 1-5 digit and negative years, second 60, ns corners, offsets around 60/3600/36000/86400/360000 and the i32 ends); the grid is replayed through DateTime::new().to_string(); seeded date-times over the whole offset range are rendered by the crate and TLC checks bytes = Render, shape, and that the reader recovers fields/ns/offset.",
+   note="Trusted: Format.tla's reading of the statement.",
+   tech="TLA+ spec (Format) + TLC model checking + vectors replayed + TLC trace validation"),
+ "C09": dict(cat="model_checking", ref="§C09",
+   text="A TLA+ recogniser-with-denotation for the grammar (both extension modes) is model-checked against a generative model: sentences assembled from components that carry their own denotation must parse to exactly the composed rule, bad components must be rejected, plain sentences mean the same with extensions. All component families and every string of <= 3 (thorough 4) tokens are replayed through the three public paths (settings = off, v2 footer = off, v3 footer = on); seeded sentences and byte edits are validated by TLC.",
+   note="Which error a non-sentence gets is not part of the statement: any refusal matches. Surrounding whitespace is excluded here (C20).",
+   tech="TLA+ spec (TzString) + TLC model checking + vectors replayed + TLC trace validation"),
+ "C08": dict(cat="model_checking", ref="§C08",
+   text="TzFile.tla contains a byte-exact encoder and a total decoder; TLC checks Decode(Encode(z)) = z over small zones in v1/v2/v3 (ignored 32-bit block holding a different zone, shared-suffix and empty designations, indicator vectors, plain/extended footers) and decodes every truncation and single-byte corruption of a share of them; all are replayed. Real tzdata 2025b files (posix and right/) are decoded by the TLA+ decoder inside TLC and compared field by field with the crate's zone, as are single-field corruptions of real files.",
+   note="Quick: 60 corpus files (24 fixed interesting ones + seeded sample); thorough: all 894. Files whose two headers disagree on the version are left open. Error kinds are not compared.",
+   tech="TLA+ spec (TzFile encoder/decoder) + TLC model checking + vectors replayed + TLC trace validation of real files"),
+ "C20": dict(cat="model_checking", ref="§C20",
+   text="Resolution is specified as a plan (ordered read requests) and an outcome; TLC checks the plan laws over all small configurations (16 values x directory lists x every absent/valid/malformed/unreadable assignment, with decoy files at every path a wrong reading would open) and each configuration is executed through TimeZoneSettings::new(dirs, recording_read_fn); the recorded request sequence, the outcome kind (zone / I/O error / decoding error) and the zone are validated by TLC, also on seeded larger configurations.",
+   note="Non-UNIX cfg branches are not built here.",
+   tech="TLA+ spec (Resolve) + TLC model checking + TLC trace validation"),
 }
 
 NOT_YET = "check not built yet in this round (planned in DESIGN.md §3); not claimed until it exists and is green"
